@@ -1,6 +1,9 @@
 package main
 
 import (
+	"path/filepath"
+	"os/exec"
+	"encoding/json"
 	"flag"
 	"fmt"
 	"os"
@@ -20,6 +23,8 @@ func main() {
 		cmdVerify(os.Args[2:])
 	case "check":
 		os.Exit(cmdCheck(os.Args[2:]))
+	case "replay":
+		os.Exit(cmdReplay(os.Args[2:]))
 	case "list":
 		cmdList(os.Args[2:])
 	case "sweep":
@@ -199,4 +204,51 @@ func cmdCallTree(root string) {
 	for _, l := range P.CallTree(root) {
 		fmt.Println(l)
 	}
+}
+
+// cmdReplay re-runs a replay file produced by a failed check against the current /repo.
+//   *_replay_test.go : the Go test built from the solver's model is injected through its overlay file and run;
+//                      exit 1 if the violation reproduces, 0 if it does not.
+//   *.txt            : the obligation had no replayable input (no-failing-input-found): the file - failed
+//                      obligation, clause, solver output - is printed; exit 1 (the report stands, nothing to run).
+func cmdReplay(args []string) int {
+	if len(args) != 1 {
+		fmt.Println("usage: lvc replay <path printed in a VIOLATION line>")
+		return 2
+	}
+	path := args[0]
+	data, err := os.ReadFile(path)
+	if err != nil {
+		fmt.Println("error:", err)
+		return 2
+	}
+	if !strings.HasSuffix(path, "_replay_test.go") {
+		fmt.Print(string(data))
+		fmt.Println("replay: this obligation has no replayable input (no-failing-input-found); the failed obligation and the verifier's output are above")
+		return 1
+	}
+	if ap, err := filepath.Abs(path); err == nil {
+		path = ap
+	}
+	ov := strings.TrimSuffix(path, "_replay_test.go") + "_overlay.json"
+	var m struct{ Replace map[string]string }
+	od, err := os.ReadFile(ov)
+	if err != nil || json.Unmarshal(od, &m) != nil || len(m.Replace) != 1 {
+		fmt.Println("error: overlay file missing or malformed:", ov)
+		return 2
+	}
+	pkgDir := ""
+	for k := range m.Replace {
+		pkgDir = filepath.Dir(k)
+	}
+	cmd := exec.Command("bash", "-c", fmt.Sprintf("ulimit -v 8000000; cd %q && go test -tags=verif -overlay %q -vet=off -count=1 -timeout 60s -run '^TestLvcReplay$' .", pkgDir, ov))
+	cmd.Env = append(os.Environ(), "GOFLAGS=", "GOPROXY=off", "GOSUMDB=off", "GOTOOLCHAIN=local")
+	out, _ := cmd.CombinedOutput()
+	fmt.Print(string(out))
+	if strings.Contains(string(out), "REPRODUCED") {
+		fmt.Println("replay: REPRODUCED on the current tree")
+		return 1
+	}
+	fmt.Println("replay: not reproduced on the current tree")
+	return 0
 }
